@@ -78,6 +78,7 @@ class ProxiedCircuit(Circuit):
         return True
 
     def _rewrite_packet_ack(self, message: Message, reverse_injections):
+        had_blocks = bool(message["Packets"])
         new_blocks = []
         for block in message["Packets"]:
             packet_id = block["ID"]
@@ -89,8 +90,9 @@ class ProxiedCircuit(Circuit):
             new_blocks.append(block)
 
         message["Packets"] = new_blocks
-        # Sending a PacketAck with nothing in it would be suspicious
-        return bool(new_blocks)
+        # Sending a PacketAck with nothing in it would be suspicious,
+        # unless that is how it arrived, then there is nothing of ours to hide.
+        return bool(new_blocks) or not had_blocks
 
     def _rewrite_start_ping_check(self, message: Message, fwd_injections):
         orig_id = message["PingID"]["OldestUnacked"]
